@@ -350,6 +350,58 @@ func TestPropBaseline(t *testing.T) {
 		}
 		co.add(Case{Font: f.Rel}, evaluate(Case{Font: f.Rel, Note: "unmutated"}, "baseline"))
 	}
+	// The container kinds are a stratum of every run, whatever the seed: every WOFF, collection
+	// (ttc / otc), dfont and CFF2 font of the corpus and one plain TrueType and one CFF font get, next
+	// to the unmutated run above, a handful of light mutants (directory / header fields, shortened
+	// tables, recompressed WOFF bodies) so that the whole query program runs on fonts of each
+	// container that still load.
+	if shard == 0 {
+		seenKind := map[string]bool{}
+		for fi, f := range smallFonts {
+			l, data, err := layoutOf(f.Rel)
+			if err != nil || co.stopped {
+				continue
+			}
+			kind := l.Kind
+			if kind == "sfnt" {
+				kind = "ttf"
+				for _, tb := range l.Tables {
+					if tb.Tag == "CFF " {
+						kind = "otf"
+					}
+					if tb.Tag == "CFF2" {
+						kind = "cff2"
+					}
+				}
+				if kind != "cff2" && seenKind[kind] {
+					continue // one plain TrueType and one CFF font; every other kind entirely
+				}
+			}
+			seenKind[kind] = true
+			ev.Label("container:" + kind)
+			frnd := ev.NewRand(uint64(fi)*0x9E3779B97F4A7C15 + 0xC0)
+			var light []mutant
+			for _, m := range enumerate(data, l, frnd, 0) {
+				if m.Cat == catDir || m.Cat == catShorten || m.Cat == catHeader {
+					light = append(light, m)
+				}
+			}
+			light = sample(light, 30, frnd)
+			if l.Kind == "woff" {
+				for _, tb := range l.Tables {
+					for k := 0; k < 3; k++ {
+						if m, ok := woffBodyMutant(data, l, tb, 2*frnd.Intn(16), 2, uint32(frnd.Intn(4))); ok {
+							light = append(light, m)
+						}
+					}
+				}
+			}
+			for _, m := range light {
+				c := Case{Font: f.Rel, Edits: m.Edits, Note: "container stratum: " + m.Note}
+				co.add(c, evaluate(c, "container:"+kind))
+			}
+		}
+	}
 	co.finish()
 }
 
